@@ -210,7 +210,11 @@ RefResolve(s, sc, t, k) ==
     ELSE IF t \in Builtins /\ k = NONE THEN
         Feed(a0, RetEv("resolve", <<>>, [k |-> t, ids |-> <<>>, s |-> IF t = "prov" THEN NONE ELSE ss]))
     ELSE IF t = "V" THEN
-        (IF VoidRegs(s.cfg, k) # {} THEN Feed(a0, RetEv("resolve", <<>>, [k |-> "void", ids |-> <<>>, s |-> NONE]))
+        (IF VoidRegs(s.cfg, k) # {} THEN
+            LET id == CHOOSE x \in VoidRegs(s.cfg, k) : TRUE
+                c  == IF LifeOf(s.cfg, id) = "transient" THEN RefConstruct(a0, ss, id) ELSE [a |-> a0, ok |-> TRUE]
+            IN IF c.ok THEN Feed(c.a, RetEv("resolve", <<>>, [k |-> "void", ids |-> <<>>, s |-> NONE]))
+               ELSE Feed(c.a, RetEv("resolve", FailErr(c.a), NoneRes))
          ELSE Feed(a0, RetEv("resolve", <<"notfound", "resolution">>, NoneRes)))
     ELSE IF ~HasProvider(s.cfg, t, k) THEN Feed(a0, RetEv("resolve", <<"notfound", "resolution">>, NoneRes))
     ELSE LET p == ProviderOf(s.cfg, t, k)
